@@ -39,9 +39,68 @@ type harness struct {
 	heads  jsync.NewHeadSubscription
 	reorgs jsync.ReorgSubscription
 
+	// further new-head subscribers that come and go while the node runs (RPC clients do):
+	// each must see exactly the notifications the first subscriber sees during its lifetime
+	syn      *jsync.Synchronizer
+	churnRng *rand.Rand
+	extras   []*extraSub
+	nh       []felt.Felt // hashes of the new-head notifications the first subscriber received
+	drains   int
+
 	mu   sync.Mutex
 	hist []ev
 	ops  map[string]int
+}
+
+type extraSub struct {
+	id         int
+	sub        jsync.NewHeadSubscription
+	born, died int // window into harness.nh ([born, died)); died = -1 while alive
+	got        []felt.Felt
+}
+
+// churn runs at the end of every drain point (all of them are on the serial store pipeline, so
+// no Send is in flight): it empties the extra subscribers' channels and now and then subscribes
+// a new one or unsubscribes one that is not the newest.
+func (h *harness) churn() {
+	if h.syn == nil {
+		return
+	}
+	for _, x := range h.extras {
+		if x.died >= 0 {
+			continue
+		}
+		for {
+			select {
+			case b, ok := <-x.sub.Recv():
+				if ok && b != nil {
+					x.got = append(x.got, *b.Hash)
+					continue
+				}
+			default:
+			}
+			break
+		}
+	}
+	h.drains++
+	var live []*extraSub
+	for _, x := range h.extras {
+		if x.died < 0 {
+			live = append(live, x)
+		}
+	}
+	switch r := h.churnRng.IntN(12); {
+	case r < 2 && len(live) < 4:
+		h.extras = append(h.extras, &extraSub{id: len(h.extras), sub: h.syn.SubscribeNewHeads(), born: len(h.nh), died: -1})
+	case r == 2 && len(live) >= 2:
+		x := live[h.churnRng.IntN(len(live)-1)] // any but the newest
+		x.sub.Unsubscribe()
+		x.died = len(h.nh)
+	case r == 3 && len(live) >= 1:
+		x := live[len(live)-1]
+		x.sub.Unsubscribe()
+		x.died = len(h.nh)
+	}
 }
 
 func (h *harness) append(e ev) {
@@ -70,10 +129,12 @@ func (h *harness) drain() {
 		case b, ok := <-h.heads.Recv():
 			if ok && b != nil {
 				h.append(ev{K: "NH", N: int64(b.Number), H: *b.Hash})
+				h.nh = append(h.nh, *b.Hash)
 				continue
 			}
 		default:
 		}
+		h.churn()
 		return
 	}
 }
@@ -445,6 +506,8 @@ func runCase(t *testing.T, r *lib.Run, idx int) {
 	s := jsync.New(h.node.BC, ds, log.NewNopZapLogger(), 0, false, h.db)
 	h.heads = s.SubscribeNewHeads()
 	h.reorgs = s.SubscribeReorg()
+	h.syn = s
+	h.churnRng = lib.Rng("C06/subscriber-churn", uint64(idx))
 	s.WithListener(h.listener())
 
 	ctl := &controller{src: src, g: g, cur: cur, tip: tipB, builderNew: cfg.BuilderNew, minFork: cfg.MinFork, script: cfg.Script}
@@ -584,6 +647,33 @@ func runCase(t *testing.T, r *lib.Run, idx int) {
 
 	findings, hstats := checkHistory(hist, initial)
 	r.Eval(len(hist))
+
+	// (d') every further new-head subscriber saw exactly what the first one saw during its lifetime
+	for _, x := range h.extras {
+		end := x.died
+		if end < 0 {
+			end = len(h.nh)
+		}
+		want := h.nh[x.born:end]
+		r.Count("extra_new_head_subscribers", 1)
+		r.Count("new_head_notifications_due_to_extra_subscribers", len(want))
+		same := len(want) == len(x.got)
+		for i := 0; same && i < len(want); i++ {
+			same = want[i].Equal(&x.got[i])
+		}
+		if !same {
+			kind := "lost"
+			if len(x.got) > len(want) {
+				kind = "extra"
+			} else if len(x.got) == len(want) {
+				kind = "different"
+			}
+			findings = append(findings, finding{"new-head-notification:" + kind + ":for-a-later-subscriber-while-others-come-and-go",
+				fmt.Sprintf("new-head subscriber #%d (subscribed after %d notifications, %s) received %d notifications, the first subscriber received %d in that time",
+					x.id, x.born, map[bool]string{true: "still subscribed at the end", false: fmt.Sprintf("unsubscribed after %d", x.died)}[x.died < 0], len(x.got), len(want)), -1})
+			break
+		}
+	}
 
 	// (a) continued: no tampered answer may have been acknowledged as persisted
 	persisted := 0
